@@ -179,6 +179,9 @@ def build_dtype(spec, order):
     fields, align = spec
     if fields[0][0] is None:
         return np.dtype(order + fields[0][1])
+    if align == "titled":
+        # every field carries a title: dtype.fields then has TWO entries per field, (title, name) -> 3-tuples
+        return np.dtype([(("Title of %s" % n, n), order + c, s) if s else (("Title of %s" % n, n), order + c) for n, c, s in fields])
     if align == "view":
         # the dtype of a multi-field selection taken out of file order (cat[['dec', 'ra']]): the fields are listed
         # in the reverse of their offset order and the item keeps the width of the full row (a 3-byte gap in front)
@@ -505,6 +508,8 @@ def main(ctx):
                 naligned += 1
         if 2 <= len(fs) <= ctx.pick(2, 3):
             specs.append((fs, "view"))
+        if len(fs) <= 2:
+            specs.append((fs, "titled"))
 
     # tables whose columns ALL have the same item size, one of them a byte string of that width (strings have no byte
     # order: a whole-buffer swap chosen by item size alone reverses them)
